@@ -26,6 +26,9 @@ Streams (model `Wpull.Decomp` vs the real code of the checkout under test):
            timeout taken from --session-timeout through the real argument
            parser and FetchRule (None, 0.5, 5, 30 s) x codings x framings x
            file kept / None x truncated / corrupt; same oracle
+  framing  which body reader ran (inferred from the raw read() calls on the
+           connection's StreamReader) vs the model's effectiveFraming, with
+           ignore_length as a dimension over all three framings
   overrun  (family of e2e) Content-Length framing with a server that sends
            1..700 bytes more than declared, body sizes around and above the
            4096 read size, random cut sets; the raw reads of the connection's
@@ -71,6 +74,7 @@ RULE = ('payloads (empty / tiny / text / random / runs, 0..70 kB) x compression 
         'e2e: framing (close, length, chunked, bad length, ignore_length) x body kept / discarded (file=None) / raw; '
         'seq: all 36 ordered pairs of codings (x3) + random triples through one Stream object, function level and over one connection; '
         'web: WebClient/WebSession fetch x session timeout (None, 0.5, 5, 30) x codings x framings x file kept/None; '
+        'ignore_length x {length, chunked, close}; chunk layouts: random, all 1-byte chunks, boundaries inside the coding header (1, 2, 8, 10) and trailer (8, 4+4, 1, 2); '
         'overrun: Content-Length framing x 1..700 surplus bytes x body sizes 1..20000 (around 4096 / 8192) x cut sets; '
         'bomb: highly compressible 150 kB-1 MB payloads where a non-final piece inflates past 64 KiB; '
         'non-trivial = a decoder object is selected and the body is not empty; distinct by (coding, body, pieces, level)')
@@ -583,27 +587,60 @@ class _Passive:
     pass
 
 
+def chunk_sizes(rng, n):
+    """Chunk layout for a body of n bytes.  Besides random sizes: layouts whose boundaries fall inside the
+    coding's header and trailer (gzip header 10 bytes, zlib header 2, gzip trailer 8, adler 4) and 1-byte chunks
+    throughout - pieces for which a decoder has nothing to emit yet."""
+    style = rng.choice(['random', 'random', 'ones', 'head', 'tail', 'headtail'])
+    sizes = []
+    if style == 'ones' and n <= 600:
+        return [1] * n
+    left = n
+    if style in ('head', 'headtail'):
+        for k in rng.choice([[1], [2], [8], [10], [1, 1], [2, 8], [1, 9], [10, 1], [1, 2, 8, 10]]):
+            if left > k:
+                sizes.append(k)
+                left -= k
+    tail = []
+    if style in ('tail', 'headtail'):
+        for k in rng.choice([[8], [1], [2], [4, 4], [1, 8], [8, 1], [10, 8, 2, 1]]):
+            if left > k:
+                tail.insert(0, k)
+                left -= k
+    while left > 0:
+        k = min(left, rng.choice([1, 2, 3, 7, 50, 5000]))
+        sizes.append(k)
+        left -= k
+    return sizes + tail
+
+
 def chunked_frame(rng, body):
     """-> (wire bytes, list of (start, end) content regions relative to the start of the wire body)"""
     wire = b''
     regions = []
     i = 0
-    while i < len(body):
-        n = rng.choice([1, 2, 3, 7, 50, 5000])
+    for n in chunk_sizes(rng, len(body)):
         chunk = body[i:i + n]
         head = b'%x%s\r\n' % (len(chunk), rng.choice([b'', b'', b';ext=1']))
         wire += head
         regions.append((len(wire), len(wire) + len(chunk)))
         wire += chunk + b'\r\n'
         i += n
+    assert i == len(body)
     wire += b'0\r\n' + rng.choice([b'', b'X-Trailer: 1\r\n']) + b'\r\n'
     return wire, regions
+
+
+def is_chunked(strategy):
+    return strategy in ('chunked', 'ignorelen-chunked')
 
 
 def real_e2e(header_value, strategy, wire_body, cuts, regions, filemode='keep', declared=None, reads=None):
     """Real Stream.read_response + read_body.  -> (res, pieces seen by the decoder, log, odd)
     strategy: close | length | chunked | badlength (unparseable Content-Length -> until close) |
-              ignorelen (Stream(ignore_length=True) with a Content-Length -> until close)
+              ignorelen / ignorelen-chunked / ignorelen-close: Stream(ignore_length=True) with a Content-Length
+              (-> until close), with chunked framing (stays chunked) and without either (close) |
+              overrun (Content-Length smaller than what is sent)
     filemode: keep (file=BytesIO) | none (file=None: the caller discards the body) | raw (raw=True, no decoding)"""
     from wpull.protocol.http.stream import Stream
     from wpull.protocol.http.request import Request
@@ -618,7 +655,7 @@ def real_e2e(header_value, strategy, wire_body, cuts, regions, filemode='keep', 
         head += b'Content-Length: %d\r\n' % declared
     elif strategy == 'badlength':
         head += b'Content-Length: 1x2\r\n'
-    elif strategy == 'chunked':
+    elif is_chunked(strategy):
         head += b'Transfer-Encoding: chunked\r\n'
     head += b'\r\n'
     out = io.BytesIO()
@@ -640,7 +677,7 @@ def real_e2e(header_value, strategy, wire_body, cuts, regions, filemode='keep', 
                     reads.append(bytes(d))
                     return d
                 fc.reader.read = logged_read
-            stream = Stream(conn, keep_alive=True, ignore_length=(strategy == 'ignorelen'))
+            stream = Stream(conn, keep_alive=True, ignore_length=strategy.startswith('ignorelen'))
             request = Request('http://h/')
 
             async def client():
@@ -669,7 +706,7 @@ def real_e2e(header_value, strategy, wire_body, cuts, regions, filemode='keep', 
         res = compat.run(go())
     # which notified items were content
     pieces = []
-    if strategy == 'chunked':
+    if is_chunked(strategy):
         off = 0
         for item in seen:
             for (a, b) in regions:
@@ -682,21 +719,37 @@ def real_e2e(header_value, strategy, wire_body, cuts, regions, filemode='keep', 
     return res, pieces, z.log, z.odd
 
 
+def infer_framing(reads, wire, body, chunked):
+    """Which reader of read_body ran, from the raw read() calls on the connection's StreamReader:
+    chunked: read() returned the chunk contents only (the framing lines are fetched with readline());
+    close: everything came through read() up to and including the empty read at end of stream;
+    length: everything declared came through read(), no read at end of stream."""
+    got = b''.join(reads)
+    if chunked and got == body and got != wire:
+        return 'x'
+    if got == wire and reads and reads[-1] == b'':
+        return 'c'
+    if got == wire or (wire.startswith(got) and got.startswith(body)):
+        return 'l'
+    return '?'
+
+
 def stream_e2e(ctx, cases):
     """cases: (coding, header_value, body, strategy, meta, seed[, filemode])"""
     rows = []
     lens_reads = []     # (declared length, raw reads, pieces the decoder got) of the over-sending runs
+    framings = []       # (ignore_length, length parses, framing the headers declare, framing observed, strategy)
     for case_t in cases:
         (coding, header_value, body, strategy, meta, seed) = case_t[:6]
         filemode = case_t[6] if len(case_t) > 6 else 'keep'
         rng = ctx.subrng('e2e/%s' % seed)
-        reads = None
-        if strategy == 'chunked':
+        reads = []
+        if is_chunked(strategy):
             wire, regions = chunked_frame(rng, body)
         elif strategy == 'overrun':
             k = rng.choice([1, 2, 17, 700]) if rng.random() < 0.5 else rng.randrange(1, 701)
             surplus = rng.choice([bytes(rng.randrange(256) for _ in range(k)), (b'HTTP/1.1 200 OK\r\n\r\n' * 40)[:k], b'X' * k])
-            wire, regions, reads = body + surplus, None, []
+            wire, regions = body + surplus, None
         else:
             wire, regions = body, None
         cuts = fakenet.random_cuts(rng, len(wire), rng.choice(['none', 'one', 'few', 'many', 'bytes'] if len(wire) < 400
@@ -707,10 +760,22 @@ def stream_e2e(ctx, cases):
             cuts = [c for c in cuts if c <= len(body) - 1 or c >= len(body) + 1]
         res, pieces, log, odd = real_e2e(header_value, strategy, wire, cuts, regions, filemode,
                                          declared=len(body), reads=reads)
-        if reads is not None:
+        if strategy == 'overrun':
             meta = dict(meta, reads=[len(r) for r in reads], surplus=len(wire) - len(body))
             lens_reads.append((len(body), [r for r in reads], pieces))
+        if res[0] == 'ok' and body and strategy != 'overrun':
+            # which reader ran: get_read_strategy's answer -> ignore_length rule -> fallback for an unparseable length
+            base = 'x' if is_chunked(strategy) else 'l' if strategy in ('length', 'badlength', 'ignorelen') else 'c'
+            framings.append((strategy.startswith('ignorelen'), strategy != 'badlength', base,
+                             infer_framing(reads, wire, body, is_chunked(strategy)), strategy))
         rows.append((coding, header_value, body, strategy, meta, seed, res, pieces, log, odd, filemode, wire))
+    fr = ctx.model.ask(['decomp framing %s %s %s' % ('T' if il else 'F', 'T' if lp_ else 'F', base)
+                        for (il, lp_, base, _obs, _st) in framings])
+    for (il, lp_, base, obs, st), rep in zip(framings, fr):
+        ctx.tag('framing:%s->%s' % (st, obs))
+        if rep != obs:
+            ctx.disagree('framing', {'stream': 'framing', 'ignore_length': il, 'length_parses': lp_, 'declared': base,
+                                     'strategy': st}, rep, obs)
     # Content-Length framing: the model's `lengthPieces declared reads` must be the pieces the decoder got
     lp = ctx.model.ask(['decomp lenpieces %d %s' % (n, enc_pieces(rd)) for (n, rd, _p) in lens_reads])
     for (n, rd, pcs), rep in zip(lens_reads, lp):
@@ -734,11 +799,16 @@ def stream_e2e(ctx, cases):
                 ctx.fail('overrun-delivered', 'read_body_by_length', case,
                          'Content-Length %d, reads %s: %d bytes were handed to the decoder (surplus of an over-sending server)'
                          % (len(body), meta.get('reads'), len(b''.join(pieces))))
-        elif (b''.join(pieces) != body) if res[0] == 'ok' else (not body.startswith(b''.join(pieces))):
-            raise Infra('e2e harness: the pieces observed (%d bytes) are not the body (%d bytes)' % (len(b''.join(pieces)), len(body)))
+        pieces_ok = True
+        if strategy != 'overrun' and ((b''.join(pieces) != body) if res[0] == 'ok' else (not body.startswith(b''.join(pieces)))):
+            # what reached the decoder is not (a prefix of) the body: the framing was read wrongly.  The oracle below
+            # judges the result; the co-simulation over these pieces would be meaningless, so it is a disagreement.
+            pieces_ok = False
+            ctx.disagree('e2e-pieces', case, 'the decoder is handed the %d body bytes' % len(body),
+                         '%d bytes in %d pieces' % (len(b''.join(pieces)), len(pieces)))
         # model: same result class / content, whole log consumed (per-piece outputs are not observable through the file)
         rp = rep.split(' ')
-        if filemode == 'keep' or (filemode == 'raw' and strategy != 'chunked'):
+        if filemode == 'keep' or (filemode == 'raw' and not is_chunked(strategy)):
             model = ' '.join(rp[:2]) + ' ' + rp[-1]
             real = fmt_res(res) + ' 0'
         else:
@@ -746,13 +816,13 @@ def stream_e2e(ctx, cases):
             # the exception class and the zlib calls (final flush included) are
             model = (rp[0] if rp[0] == 'ok' else ' '.join(rp[:2])) + ' ' + rp[-1]
             real = ('ok' if res[0] == 'ok' else fmt_res(res)) + ' 0'
-        if model != real:
+        if pieces_ok and model != real:
             ctx.disagree('e2e', case, rep[:400], real[:400])
         if odd:
             ctx.disagree('e2e-zlib-api', case, 'plain calls', odd[0])
         monitor_zlib(ctx, log, case)
         if filemode == 'raw':
-            want = ('ok', wire if strategy == 'chunked' else body)      # (overrun: the declared bytes only)
+            want = ('ok', wire if is_chunked(strategy) else body)      # (overrun: the declared bytes only)
             if res != want:
                 ctx.fail('raw-not-passthrough', 'read_body_raw', case,
                          'raw=True must hand the undecoded bytes through: %s' % fmt_res(res)[:160])
@@ -871,7 +941,7 @@ def family_wrapper(ctx, rng, batch, n):
     batch.flush()
 
 
-STRATEGIES = ('close', 'length', 'chunked', 'badlength', 'ignorelen')
+STRATEGIES = ('close', 'length', 'chunked', 'badlength', 'ignorelen', 'ignorelen-chunked', 'ignorelen-close')
 FILEMODES = ('keep', 'none', 'raw')
 
 
@@ -890,7 +960,9 @@ def family_e2e(ctx, rng, n):
             body, meta['mut'] = mutate(rng, body)
         header = {'g': rng.choice(['gzip', 'GZIP']), 'd': rng.choice(['deflate', 'Deflate']), 'i': rng.choice(['', 'identity'])}[coding]
         for strategy in STRATEGIES:
-            if strategy in ('badlength', 'ignorelen') and i % 3:
+            if strategy in ('badlength', 'ignorelen', 'ignorelen-close') and i % 3:
+                continue
+            if strategy == 'ignorelen-chunked' and i % 2:
                 continue
             for filemode in FILEMODES:
                 if filemode == 'raw' and i % 4:
@@ -1098,7 +1170,8 @@ def stream_e2e_seq(ctx, seqs, seed):
         rows.append((seq, results))
         for (kind, hdr, coding, body, cuts, meta), (res, pieces, log, odd) in zip(seq, results):
             if (b''.join(pieces) != body) if res[0] == 'ok' else (not body.startswith(b''.join(pieces))):
-                raise Infra('e2e-seq harness: the pieces observed are not the body')
+                ctx.disagree('e2e-seq-pieces', {'stream': 'e2e-seq', 'kinds': [x[0] for x in seq]},
+                             'the decoder is handed the body bytes', '%d bytes for a body of %d' % (len(b''.join(pieces)), len(body)))
             reqs.append('decomp resp %s %s %s' % (enc_opt(hdr), enc_pieces(pieces), enc_log(log)))
     reps = ctx.model.ask(reqs)
     i = 0
